@@ -4,9 +4,13 @@
 //   case <id> agg <v|a> <n> <script_0> ... <script_{n-1}>
 //       mode v: generator<int>, mode a: generator<int,int> (every access carries an argument), mode r:
 //       generator<int,targ> - the argument is a NON-trivially-copyable object whose life time is tracked (a read of a
-//       destroyed argument object is reported as `dead`)
+//       destroyed argument object is reported as `dead`); mode s: generator<tval> - the VALUES are objects of such a
+//       type (heap payload: a move empties the source object, `moved`); mode t: generator<tval,targ>
 //       script: acts separated by ',', optional '*' separates the prefix from an endlessly repeated cycle,
-//               '-' = empty.  acts: y (yield the next value of this source), a (co_await a future that the
+//               '-' = empty.  acts: y (yield the next value of this source: a temporary in modes s/t),
+//               yl (yield it as an LVALUE that outlives the yield - an accumulator / an element of a script kept by the
+//               owner of the source - and look at that object again when the source is resumed: event `k<k>=<what it holds>`),
+//               a (co_await a future that the
 //               input resolves later), ar (like a, and after the await has completed the source fetches its argument
 //               AGAIN with `co_yield nullptr`: the generator carries the argument by reference, so this reads the
 //               caller's object after a suspension; without argument = a), t<c> (throw test_exc(c)).
@@ -17,22 +21,31 @@
 //   cnext <arg>           a consumer coroutine doing co_await gen.next(arg)
 //   batch s:a s:a ..      ONE consumer coroutine makes all the accesses in a row without unwinding to the thread's
 //                         coroutine queue (the aggregate is used from inside a running coroutine); styles n (next/
-//                         value, blocking), i (iterator), c (co_await next), f (gen() + co_await has_value),
-//                         w (gen() + blocking operator bool); only the last access may stay pending
+//                         value, blocking), i (iterator), c (co_await next), and through the future of gen():
+//                         f (`if (co_await val.has_value()) *val else end`), w (`if (val) *val else end`),
+//                         x (`if (!val) end else *val`), d (`*val`), q (`co_await val`), j (`val.sync(); val.value()`);
+//                         a capital letter = the same reading on ONE future object that is re-used with
+//                         `val.result_of(gen)` / `val << gen`; the value is moved out of the future (`std::move(*val)`);
+//                         only the last access may stay pending (f, q, c)
+//   pnext <style> <arg>   the blocking styles (n i w x d j W X D J) from plain code
 //   bnext <arg> k1 k2..   synchronous (blocking) access while a second thread resolves sources k1 k2 ..
 //   res <k> / tres <k>    resolve the future source k awaits, on this thread / on a second thread (joined)
 //   destroy k1 k2 ..      destroy the aggregate (parked) while a second thread resolves k1 k2 ..
 //   cdestroy k1 k2 ..     the same, but the aggregate is destroyed by a running coroutine (the thread's coroutine queue
 //                         is active while the controller destructor waits for the in-flight sources)
 //   stress <limit> <style> <seed>   one resolver thread per asynchronous source; the consumer blocks on this
-//                         thread (style 0 next/value, 1 iterator, 2 future+sync, 3 consumer coroutine with co_await next(), 4 consumer
-//                         coroutine blocking in next()) until <limit> values or the end;
-//                         prints schedule-independent facts only
+//                         thread (style 0 next/value, 1 iterator, 2 gen()+sync()+value(), 6 `if (!val) break; *val`, 8 `*gen()`,
+//                         9 `if (val) *val` on one future re-used with operator<<) or is a coroutine (3 co_await next(), 4 blocking
+//                         next(), 5 `val = gen(); while (co_await val.has_value()) { *val; val.result_of(gen); }`, 7 `co_await gen()`)
+//                         until <limit> values or the end; prints schedule-independent facts only (keptbad = how often a
+//                         source found the lvalue it had yielded changed)
 //   sdestroy <seed>       destroy the aggregate while the resolver threads are running
 //   end                   settle (resolve in-flight sources until nothing is pending), destroy, account
 //
 // output: `<op> <result> p=<acts executed per source, `e` appended once the body has returned or thrown>` ; events `a<k>=<arg>` (source k received arg),
-// `r<k>=<arg>` (source k fetched its argument again after an await: act `ar`) and `got=<result>` (a pending fnext/cnext completed), sorted.
+// `r<k>=<arg>` (source k fetched its argument again after an await: act `ar`), `k<k>=<obj>` (source k, back from `co_yield x`
+// of act `yl`, looked at x again; after the destruction the harness looks at the x of the sources that were still parked there)
+// and `got=<result>` (a pending fnext/cnext completed), sorted.
 // (<arg> is printed as `dead` when the object read is not alive any more and as `moved` when it is a moved-from object)
 #include "common.h"
 #include <cocls/generator.h>
@@ -72,20 +85,21 @@ struct body_guard {
 // Argument type of mode r: not trivially copyable, every object is registered while it is alive, so that a source
 // reading its argument through the reference it was given can tell a live object from a destroyed one (the storage
 // of a destroyed coroutine-frame local stays readable, the sanitizers do not see that).
-struct targ;
+struct tracked;
 static std::mutex g_targ_mx;
-static std::set<const targ *> g_targ_live;
+static std::set<const tracked *> g_targ_live;
 static std::atomic<long> g_argbad{0};   // stress: late reads that differ from the argument the source was charged with
-struct targ {
+static std::atomic<long> g_keptbad{0};  // stress: a source found the lvalue it had yielded changed
+struct tracked {
     // the number travels in a heap-allocated string (longer than any small-string buffer): copying copies it,
     // moving takes it away from the source object, as with any std::string / std::vector argument
     std::string txt;
-    explicit targ(int x) : txt("argument-carried-in-a-heap-allocated-string:" + std::to_string(x)) { reg(); }
-    targ(const targ &o) : txt(o.txt) { reg(); }
-    targ(targ &&o) noexcept : txt(std::move(o.txt)) { reg(); }
-    targ &operator=(const targ &o) { txt = o.txt; return *this; }
-    targ &operator=(targ &&o) noexcept { txt = std::move(o.txt); return *this; }
-    ~targ() {
+    explicit tracked(int x) : txt("argument-carried-in-a-heap-allocated-string:" + std::to_string(x)) { reg(); }
+    tracked(const tracked &o) : txt(o.txt) { reg(); }
+    tracked(tracked &&o) noexcept : txt(std::move(o.txt)) { reg(); }
+    tracked &operator=(const tracked &o) { txt = o.txt; return *this; }
+    tracked &operator=(tracked &&o) noexcept { txt = std::move(o.txt); return *this; }
+    ~tracked() {
         std::lock_guard _(g_targ_mx);
         g_targ_live.erase(this);
     }
@@ -102,19 +116,24 @@ private:
         g_targ_live.insert(this);
     }
 };
+// argument type of modes r, t / value type of modes s, t
+struct targ : tracked { using tracked::tracked; };
+struct tval : tracked { using tracked::tracked; };
 static int arg_val(int a) { return a; }
-static int arg_val(const targ &a) { return a.read(); }
+static int arg_val(const tracked &a) { return a.read(); }
+static std::string obj_str(int v) { return v == -1 ? std::string("dead") : v == -2 ? std::string("moved") : std::to_string(v); }
+template <typename V> static std::string vres(const V &v) { return "v:" + obj_str(arg_val(v)); }
 
 struct act_t {
     char kind;  // 'y' 'a' 't'
-    int code;   // t: exception code, a: 1 = fetch the argument again after the await (`ar`)
+    int code;   // t: exception code, a: 1 = fetch the argument again after the await (`ar`), y: 1 = yield an lvalue (`yl`)
 };
 
 // the future a scripted source awaits; lets the second thread see whether the source coroutine has really
 // subscribed (i.e. is suspended on it), so that its continuation runs on the resolving thread
 struct probe_future : future<int> {
     bool has_awaiter() const {
-        auto a = _awaiter.load(std::memory_order_acquire);
+        auto a = VN_future_common__awaiter.load(std::memory_order_acquire);
         return a != nullptr && a != &awaiter::instance && a != &awaiter::disabled;
     }
 };
@@ -132,6 +151,20 @@ struct src_t {
     std::vector<std::pair<int, int>> *rlog = nullptr;   // arguments fetched again after an await
     std::mutex *logmx = nullptr;
     int last_arg = 0;             // the argument received at the last resumption (touched by the source body only)
+    // the lvalue of act `yl`: owned by the driver of the source (it outlives the source's frame), re-used for every `yl`
+    tval acc_t{0};
+    int acc_i = 0;
+    std::atomic<int> at_yl{0};    // != 0: the source is suspended in `co_yield <the lvalue>`, which holds this value
+    std::vector<std::pair<int, int>> *keptlog = nullptr;
+    template <typename V> V &acc() {
+        if constexpr (std::is_same_v<V, int>) return acc_i; else return acc_t;
+    }
+    // back from the `co_yield` of the lvalue: what does it hold now
+    void kept(int found, int expected) {
+        if (found != expected) ++g_keptbad;
+        std::lock_guard _(*logmx);
+        keptlog->push_back({idx, found});
+    }
 
     const act_t *next_act() {
         std::size_t p = (std::size_t)pos.load();
@@ -168,6 +201,7 @@ template <typename G>
 G source_body(src_t *s, frame_guard) {
     body_guard bg;
     constexpr bool has_arg = !G::arg_is_void;
+    using V = typename G::Ret;
     if constexpr (has_arg) {
         const auto &a = co_yield nullptr;
         s->got(arg_val(a));
@@ -175,13 +209,34 @@ G source_body(src_t *s, frame_guard) {
     for (;;) {
         const act_t *a = s->next_act();
         if (!a) break;
-        if (a->kind == 'y') {
+        if (a->kind == 'y' && a->code) {
+            // an lvalue that the source (its owner) keeps using: assigned, yielded, looked at again
             int v = (s->idx + 1) * 1000 + s->ny++;
+            V &x = s->template acc<V>();
+            x = V(v);
+            s->at_yl.store(v);
             if constexpr (has_arg) {
-                const auto &r = co_yield v;
+                const auto &r = co_yield x;
+                s->at_yl.store(0);
+                s->kept(arg_val(x), v);
                 s->got(arg_val(r));
             } else {
-                co_yield v;
+                co_yield x;
+                s->at_yl.store(0);
+                s->kept(arg_val(x), v);
+            }
+        } else if (a->kind == 'y') {
+            int v = (s->idx + 1) * 1000 + s->ny++;
+            if constexpr (has_arg) {
+                if constexpr (std::is_same_v<V, int>) {
+                    const auto &r = co_yield v;
+                    s->got(arg_val(r));
+                } else {
+                    const auto &r = co_yield V(v);
+                    s->got(arg_val(r));
+                }
+            } else {
+                if constexpr (std::is_same_v<V, int>) co_yield v; else co_yield V(v);
             }
         } else if (a->kind == 'a') {
             {
@@ -212,6 +267,7 @@ static bool parse_script(const std::string &txt, src_t &s) {
         if (tok.empty()) return true;
         if (tok == "-") { tok.clear(); return true; }
         if (tok == "y") cur->push_back({'y', 0});
+        else if (tok == "yl") cur->push_back({'y', 1});
         else if (tok == "a") cur->push_back({'a', 0});
         else if (tok == "ar") cur->push_back({'a', 1});
         else if (tok[0] == 't') cur->push_back({'t', atoi(tok.c_str() + 1)});
@@ -232,12 +288,13 @@ struct case_runner {
     static constexpr bool has_arg = !G::arg_is_void;
     // the object handed to the aggregate with an access (int or targ); it lives as long as the access
     using arg_t = std::conditional_t<has_arg, typename G::arg_type, int>;
+    using val_t = typename G::Ret;             // int or tval
     std::vector<std::unique_ptr<src_t>> srcs;
     std::unique_ptr<G> gen;
-    std::vector<std::pair<int, int>> arglog, rlog;
+    std::vector<std::pair<int, int>> arglog, rlog, keptlog;
     std::mutex logmx;
     // the outstanding non-blocking access
-    std::unique_ptr<future<int>> fut;          // fnext
+    std::unique_ptr<future<val_t>> fut;        // fnext
     std::unique_ptr<future<void>> cofut;       // cnext
     std::string coresult;                      // set by the consumer coroutine
     bool codone = false;
@@ -281,8 +338,7 @@ struct case_runner {
             try {
                 if (!iter) iter.emplace(gen->begin()); else ++*iter;
                 if (*iter == gen->end()) return "end";
-                int v = **iter;
-                return "v:" + std::to_string(v);
+                return vres(**iter);
             } catch (...) {
                 return classify(std::current_exception());
             }
@@ -295,8 +351,7 @@ struct case_runner {
             arg_t arg(arg_);
             if constexpr (has_arg) b = gen->next(arg); else b = gen->next();
             if (!b) return "end";
-            int v = gen->value();
-            return "v:" + std::to_string(v);
+            return vres(gen->value());
         } catch (...) {
             return classify(std::current_exception());
         }
@@ -308,10 +363,7 @@ struct case_runner {
             arg_t arg(arg_);
             if constexpr (has_arg) b = co_await me->gen->next(arg); else b = co_await me->gen->next();
             if (!b) me->coresult = "end";
-            else {
-                int v = me->gen->value();
-                me->coresult = "v:" + std::to_string(v);
-            }
+            else me->coresult = vres(me->gen->value());
         } catch (...) {
             me->coresult = classify(std::current_exception());
         }
@@ -323,18 +375,74 @@ struct case_runner {
     // styles: n = blocking next()/value(), i = iterator, c = co_await next(), f = gen() + co_await has_value(),
     //         w = gen() + blocking operator bool / operator*
     std::vector<std::string> batch_results;
-    static std::string fut_result(future<int> &f) {
+    // the value is MOVED out of the future (the documented licence of future::value(): "you can modify the value or
+    // move the value out"): the future owns a copy, the sources must not notice
+    static std::string fut_result(future<val_t> &f) {
         try {
-            int v = f.value();
-            return "v:" + std::to_string(v);
+            val_t got = std::move(f.value());
+            return vres(got);
+        } catch (...) {
+            return classify(std::current_exception());
+        }
+    }
+    // the blocking ways of asking the future of gen() for the result
+    static std::string read_blocking(future<val_t> &f, char ch) {
+        try {
+            if (ch == 'w') {
+                if (f) { val_t got = std::move(*f); return vres(got); }
+                return "end";
+            } else if (ch == 'x') {
+                if (!f) return "end";
+                val_t got = std::move(*f);
+                return vres(got);
+            } else if (ch == 'd') {
+                val_t got = std::move(*f);      // operator* = wait(); a dropped promise = await_canceled_exception
+                return vres(got);
+            } else {
+                f.sync();
+                val_t got = std::move(f.value());
+                return vres(got);
+            }
+        } catch (...) {
+            return classify(std::current_exception());
+        }
+    }
+    // gen(arg) into a fresh future / into the future object that is re-used (result_of, operator<<)
+    void call_into(std::optional<future<val_t>> &keep, arg_t &arg, char lc) {
+        auto call = [&]() -> future<val_t> {
+            if constexpr (has_arg) return (*gen)(arg); else return (*gen)();
+        };
+        if (!keep) keep.emplace(call);
+        else if (lc == 'f' || lc == 'w' || lc == 'd') {
+            if constexpr (has_arg) keep->result_of(call); else keep->result_of(*gen);
+        } else {
+            if constexpr (has_arg) *keep << call; else *keep << *gen;
+        }
+    }
+    std::optional<future<val_t>> keep_plain;
+    std::string plain_access(char ch, int arg_) {
+        if (ch == 'n') return sync_next(arg_);
+        if (ch == 'i') return iter_next();
+        char lc = (char)tolower(ch);
+        try {
+            arg_t arg(arg_);
+            if (ch != lc) {
+                call_into(keep_plain, arg, lc);
+                return read_blocking(*keep_plain, lc);
+            }
+            std::optional<future<val_t>> f;
+            call_into(f, arg, lc);
+            return read_blocking(*f, lc);
         } catch (...) {
             return classify(std::current_exception());
         }
     }
     static async<void> batch_consumer(case_runner *me, std::vector<std::pair<char, int>> accs) {
+        std::optional<future<val_t>> keep;     // the future of the capital-letter styles
         for (auto &ac : accs) {
             arg_t arg(ac.second);
             std::string r;
+            char lc = (char)tolower(ac.first);
             if (ac.first == 'n') r = me->sync_next(ac.second);
             else if (ac.first == 'i') r = me->iter_next();
             else {
@@ -343,27 +451,21 @@ struct case_runner {
                         bool b;
                         if constexpr (has_arg) b = co_await me->gen->next(arg); else b = co_await me->gen->next();
                         if (!b) r = "end";
-                        else {
-                            int v = me->gen->value();
-                            r = "v:" + std::to_string(v);
-                        }
-                    } else if (ac.first == 'f') {
-                        if constexpr (has_arg) {
-                            auto f = (*me->gen)(arg);
-                            co_await f.has_value();
-                            r = fut_result(f);
-                        } else {
-                            auto f = (*me->gen)();
-                            co_await f.has_value();
-                            r = fut_result(f);
-                        }
+                        else r = vres(me->gen->value());
                     } else {
-                        if constexpr (has_arg) {
-                            auto f = (*me->gen)(arg);
-                            if (f) r = "v:" + std::to_string(*f); else r = fut_result(f);
+                        std::optional<future<val_t>> fresh;
+                        std::optional<future<val_t>> &f = ac.first != lc ? keep : fresh;
+                        me->call_into(f, arg, lc);
+                        if (lc == 'f') {
+                            // the loop documented at generator<>::operator(): false = the generator has finished
+                            bool b = co_await f->has_value();
+                            if (!b) r = "end";
+                            else r = fut_result(*f);
+                        } else if (lc == 'q') {
+                            val_t got = std::move(co_await *f);
+                            r = vres(got);
                         } else {
-                            auto f = (*me->gen)();
-                            if (f) r = "v:" + std::to_string(*f); else r = fut_result(f);
+                            r = read_blocking(*f, lc);
                         }
                     }
                 } catch (...) {
@@ -379,12 +481,7 @@ struct case_runner {
     std::string fut_outcome() {
         // the future of gen(): value, exception, or dropped (= the generator ended)
         if (!fut->ready()) return "pending";
-        try {
-            int v = fut->value();
-            return "v:" + std::to_string(v);
-        } catch (...) {
-            return classify(std::current_exception());
-        }
+        return fut_result(*fut);
     }
 
     void poll() {
@@ -408,8 +505,10 @@ struct case_runner {
             for (auto &p : arglog) evs.push_back("a" + std::to_string(p.first) + "=" + val(p.second));
             for (auto &p : rlog) evs.push_back("r" + std::to_string(p.first) + "=" + val(p.second));
         }
+        for (auto &p : keptlog) evs.push_back("k" + std::to_string(p.first) + "=" + obj_str(p.second));
         arglog.clear();
         rlog.clear();
+        keptlog.clear();
     }
 
     void out(const std::string &head) {
@@ -454,6 +553,15 @@ struct case_runner {
         }
     }
 
+    // the lvalues the parked sources had yielded belong to the driver: look at them
+    void look_at_lvalues() {
+        for (auto &s : srcs) {
+            int v = s->at_yl.exchange(0);
+            if (v) {
+                if constexpr (std::is_same_v<val_t, int>) s->kept(s->acc_i, v); else s->kept(s->acc_t.read(), v);
+            }
+        }
+    }
     void do_destroy(const std::vector<int> &helpers, bool in_coro = false) {
         std::atomic<bool> bad{false};
         if (helpers.empty()) {
@@ -470,6 +578,7 @@ struct case_runner {
         destroyed = true;
         // frames of all sources must be gone now; the futures they awaited are resolved
         for (auto &s : srcs) s->fut.reset();
+        look_at_lvalues();
         if (bad) evs.push_back("bad-helper");
     }
 
@@ -513,6 +622,30 @@ struct case_runner {
         return n;
     }
     static async<void> stress_consumer(case_runner *me, int style, std::function<bool(const std::string &)> *acc) {
+        if (style == 5 || style == 7) {
+            // 5: the loop documented at generator<>::operator():
+            //        auto val = gen(); while (co_await val.has_value()) { use(*val); val.result_of(gen); }
+            // 7: for (;;) use(co_await gen())   (ends with await_canceled_exception)
+            std::optional<future<val_t>> val;
+            for (;;) {
+                std::string r;
+                try {
+                    arg_t arg(++me->stress_arg);
+                    me->call_into(val, arg, style == 5 ? 'f' : 'x');
+                    if (style == 5) {
+                        bool b = co_await val->has_value();
+                        r = b ? fut_result(*val) : std::string("end");
+                    } else {
+                        val_t got = std::move(co_await *val);
+                        r = vres(got);
+                    }
+                } catch (...) {
+                    r = classify(std::current_exception());
+                }
+                if (!(*acc)(r)) break;
+            }
+            co_return;
+        }
         for (;;) {
             std::string r;
             if (style == 4) r = me->sync_next(++me->stress_arg);
@@ -522,10 +655,7 @@ struct case_runner {
                     bool b;
                     if constexpr (has_arg) b = co_await me->gen->next(arg); else b = co_await me->gen->next();
                     if (!b) r = "end";
-                    else {
-                        int v = me->gen->value();
-                        r = "v:" + std::to_string(v);
-                    }
+                    else r = vres(me->gen->value());
                 } catch (...) {
                     r = classify(std::current_exception());
                 }
@@ -537,6 +667,8 @@ struct case_runner {
     int stress_arg = 0;    // every access of the stress run carries another argument
     std::string do_stress(int limit, int style, unsigned seed) {
         g_argbad = 0;
+        g_keptbad = 0;
+        stressed = true;
         std::vector<int> consumed(srcs.size(), 0);
         int got = 0, dup = 0, order_bad = 0, unknown = 0;
         std::string result = "cut";
@@ -556,31 +688,19 @@ struct case_runner {
             result = r;
             return false;
         };
-        if (style >= 3) {
-            // the consumer is a coroutine (3: co_await next(), 4: blocking next() inside the coroutine); it is
-            // resumed on whatever thread completes a source
+        if (style == 3 || style == 4 || style == 5 || style == 7) {
+            // the consumer is a coroutine (3: co_await next(), 4: blocking next() inside the coroutine, 5: gen() +
+            // co_await has_value() + result_of, 7: co_await gen()); it is resumed on whatever thread completes a source
             std::function<bool(const std::string &)> acc = account;
             future<void> f([&] { return stress_consumer(this, style, &acc).start(); });
             f.wait();
         } else if (limit > 0) {
             for (;;) {
                 std::string r;
-                if (style == 0) r = sync_next(++stress_arg);
-                else if (style == 1 && !has_arg) r = iter_next();
-                else {
-                    try {
-                        arg_t arg(++stress_arg);
-                        std::unique_ptr<future<int>> f;
-                        if constexpr (has_arg) f.reset(new future<int>([&] { return (*gen)(arg); }));
-                        else f.reset(new future<int>([&] { return (*gen)(); }));
-                        f->sync();
-                        fut = std::move(f);
-                        r = fut_outcome();
-                        fut.reset();
-                    } catch (...) {
-                        r = classify(std::current_exception());
-                    }
-                }
+                // plain thread: 0 next()/value(), 1 iterator, 2 gen() + sync() + value(), 6 `if (!val) break; *val`,
+                // 8 `*gen()`, 9 `if (val) *val` on one future re-used with operator<<
+                char ch = style == 0 ? 'n' : style == 1 && !has_arg ? 'i' : style == 6 ? 'x' : style == 8 ? 'd' : style == 9 ? 'W' : 'j';
+                r = plain_access(ch, ++stress_arg);
                 if (!account(r)) break;
             }
         }
@@ -600,13 +720,21 @@ struct case_runner {
         std::string res = result.rfind("exc:", 0) == 0 ? "exc" : result;
         std::ostringstream os;
         os << "stress result=" << res << " got=" << got << " dup=" << dup << " order_bad=" << order_bad
-           << " unknown=" << unknown << " lost=" << lost << " argbad=" << g_argbad.load();
+           << " unknown=" << unknown << " lost=" << lost << " argbad=" << g_argbad.load() << " keptbad=" << g_keptbad.load();
         if (result != "cut") os << " notended=" << notended << " threw=" << (threw ? 1 : 0) << " excok=" << excok;
         return os.str();
     }
 
+    bool stressed = false;     // a thread stress ran: which source is parked where depends on the schedule
     std::string account() {
-        return "frames=" + std::to_string(g_frames.load()) + " guards=" + std::to_string(g_guards.load());
+        std::string r = "frames=" + std::to_string(g_frames.load()) + " guards=" + std::to_string(g_guards.load());
+        if (stressed) {
+            // the lvalues of the parked sources have been looked at (do_destroy): count only
+            r += " keptbad=" + std::to_string(g_keptbad.load());
+            std::lock_guard _(logmx);
+            keptlog.clear();
+        }
+        return r;
     }
 
     void run(std::istream &in, const std::vector<std::string> &hdr) {
@@ -618,6 +746,7 @@ struct case_runner {
             s->idx = (int)k;
             s->arglog = &arglog;
             s->rlog = &rlog;
+            s->keptlog = &keptlog;
             s->logmx = &logmx;
             ok = parse_script(hdr[5 + k], *s);
             srcs.push_back(std::move(s));
@@ -691,8 +820,8 @@ struct case_runner {
                 try {
                     // the aggregate takes its copy of the argument while it runs inside this call
                     arg_t arg(arg_);
-                    if constexpr (has_arg) fut.reset(new future<int>([&] { return (*gen)(arg); }));
-                    else fut.reset(new future<int>([&] { return (*gen)(); }));
+                    if constexpr (has_arg) fut.reset(new future<val_t>([&] { return (*gen)(arg); }));
+                    else fut.reset(new future<val_t>([&] { return (*gen)(); }));
                     std::string r = fut_outcome();
                     if (r == "pending") pending = true; else fut.reset();
                     out("fnext " + r);
@@ -715,7 +844,7 @@ struct case_runner {
                 std::vector<std::pair<char, int>> accs;
                 bool okb = true;
                 for (std::size_t i = 1; i < w.size(); ++i) {
-                    if (w[i].size() < 3 || w[i][1] != ':' || !strchr("nicfw", w[i][0]) || (w[i][0] == 'i' && has_arg)) okb = false;
+                    if (w[i].size() < 3 || w[i][1] != ':' || !strchr("nicfwxdqjFWXDQJ", w[i][0]) || (w[i][0] == 'i' && has_arg)) okb = false;
                     else accs.push_back({w[i][0], atoi(w[i].c_str() + 2)});
                 }
                 if (!okb) {
@@ -735,6 +864,9 @@ struct case_runner {
                     }
                     out(head);
                 }
+            } else if (op == "pnext" && !pending && w.size() == 3 && w[1].size() == 1 && strchr("niwxdjWXDJ", w[1][0]) &&
+                       !(w[1][0] == 'i' && has_arg)) {
+                out("pnext " + plain_access(w[1][0], atoi(w[2].c_str())));
             } else if ((op == "res" || op == "tres") && w.size() == 2 && valid_src(w, 1)) {
                 int k = atoi(w[1].c_str());
                 bool r;
@@ -756,9 +888,12 @@ struct case_runner {
                 join_resolvers();
                 destroyed = true;
                 for (auto &s : srcs) s->fut.reset();
+                look_at_lvalues();
+                stressed = true;
+                std::string acct = account();
                 flush_args();
                 evs.clear();
-                vh::emit("sdestroy " + account(), evs);
+                vh::emit("sdestroy " + acct, evs);
             } else if ((op == "destroy" || op == "cdestroy") && !pending && valid_src(w, 1)) {
                 std::vector<int> ks;
                 for (std::size_t i = 1; i < w.size(); ++i) ks.push_back(atoi(w[i].c_str()));
@@ -827,6 +962,12 @@ int main() {
             r.run(std::cin, w);
         } else if (w[3] == "r") {
             case_runner<generator<int, targ>> r;
+            r.run(std::cin, w);
+        } else if (w[3] == "s") {
+            case_runner<generator<tval>> r;
+            r.run(std::cin, w);
+        } else if (w[3] == "t") {
+            case_runner<generator<tval, targ>> r;
             r.run(std::cin, w);
         } else {
             case_runner<generator<int>> r;
